@@ -155,10 +155,12 @@ structure JSMapping where
   orig : String
   deriving DecidableEq, Repr
 
-/-- filter.go:174-197 `defaultJSMappingCallback`, the position arithmetic AS WRITTEN:
-    `if isolated.GeneratedLine == 0 { col += f.column }; isolated.GeneratedLine += f.line`. -/
+/-- filter.go:174-200 `defaultJSMappingCallback`, the position arithmetic:
+    `if isolated.GeneratedLine == 1 { col += f.column }; isolated.GeneratedLine += f.line`
+    (generated lines of decoded mappings are 1-based; before the repair C19-js-first-line-column the test was
+    `== 0` and never fired, see "repaired defects" in GV.Props.C19). -/
 def offsetJS (st : St) (m : JSMapping) : JSMapping :=
-  let col := if m.genLine = 0 then m.genColumn + st.column else m.genColumn
+  let col := if m.genLine = 1 then m.genColumn + st.column else m.genColumn
   { m with genLine := m.genLine + st.line, genColumn := col }
 
 /-! ### the output buffer of a function context (compiler/utils.go:44-118) -/
